@@ -323,6 +323,9 @@ func c15() []*Ob {
 					for _, in := range InstrsIn(fn, FieldStore("fracmanager.FracManager", "fracs")) {
 						st := in.(*ssa.Store)
 						name := FuncName(fn)
+						if o, ok := c.P.OwnedBy(fn, func(n string) bool { return owners[n] }); ok {
+							name = o
+						}
 						if !owners[name] {
 							c.Violation("own:FracManager.fracs:"+name, st.Pos(), "%s stores FracManager.fracs; only Load, rotate and shiftFirstFrac may change the ordered fraction list", name)
 							continue
